@@ -213,6 +213,9 @@ def law_check(ctx, drv, sis, cases, tag, depth_unw=8, depth_w=14):
             if total > 0 and r > 0:
                 k = "".join(st)
                 specd[k] = specd.get(k, F(0)) + r / total
+        if total == 0:
+            specd = {"".join(status): F(1)}         # absorbing state of the chain (e.g. the only infectious node has
+                                                    # recovery weight 0 and no susceptible neighbour): nothing happens
         ctx.case(dict(law=c), nontrivial=len(specd) > 1)
         bad = symu.interval_ok(agg, specd)
         if rate0 is not None and rate0 != total:
